@@ -118,4 +118,6 @@ def run_time(res, spec, filters):
             res.sample({"spec": spec, "filters": filters, "history": hist, "final_time": now})
         return (now, completed)
 
-    _disp.explore(res, spec, filters, visit, check, make_extra=make_extra, on_dispatch=on_dispatch, sig=sig)
+    # unfiltered runs reuse one dispatcher for the whole tree (reset + replay of
+    # each branch), filtered runs use fresh objects with the lock-step twin
+    _disp.explore(res, spec, filters, visit, check, make_extra=make_extra, on_dispatch=on_dispatch, sig=sig, rebuild="fresh" if filters else "reset")
